@@ -333,9 +333,15 @@ impl IoLoop {
             Err(err) => {
                 // If our credentials are bad, the socket is dropped without a message,
                 // but we can detect that if we had gotten up to the Secure state before
-                // failing.
-                return match state {
-                    HandshakeState::Secure(_, _) => InvalidCredentialsSnafu.fail(),
+                // the socket went away. Any other failure in that state (a Secure
+                // challenge we do not support, a timeout, malformed data, ...) keeps
+                // its own error.
+                return match (state, &err) {
+                    (HandshakeState::Secure(_, _), Error::UnexpectedSocketClose)
+                    | (HandshakeState::Secure(_, _), Error::IoErrorReadingSocket { .. })
+                    | (HandshakeState::Secure(_, _), Error::IoErrorWritingSocket { .. }) => {
+                        InvalidCredentialsSnafu.fail()
+                    }
                     _ => Err(err),
                 };
             }
